@@ -31,8 +31,10 @@ POOL = {
     "TIME": [(5, 2), (1, 1), (0, 1), (12, 1), (1, 2)],
     "AMT": [(0, 1), (25, 1), (7, 2), (0, 1)],
 }
+# literals are integers or dyadic rationals: the reader turns decimal literals into binary floats and folds
+# literal-only sub-expressions numerically, which is exact only for these
 NUMS = [(0, 1), (1, 1), (2, 1), (3, 1), (4, 1), (5, 1), (7, 1), (10, 1), (1, 2), (1, 4), (3, 2), (5, 2),
-        (1, 10), (1, 5), (3, 4), (9, 4), (5, 4)]
+        (1, 8), (3, 8), (3, 4), (9, 4), (5, 4)]
 SMALL_INTS = [(0, 1), (1, 1), (2, 1), (3, 1)]
 POW2 = [(1, 1), (2, 1), (4, 1), (8, 1), (16, 1)]
 SQUARES = [(4, 1), (9, 1), (1, 4), (9, 4), (0, 1), (1, 1), (25, 4)]
@@ -53,6 +55,11 @@ def neg(a, tight=True):
 
 
 def bin_(k, a, b):
+    if k == "div" and b["k"] == "num":
+        if b["n"] == 0:
+            b = num(2)  # a literal division by zero is not a program
+        elif b["d"] != 1 and b["n"] != 1:
+            b = num(b["n"])  # x/0.75 is read as x*1.3333333333333333: literal divisors are integers or 1/2^k
     return {"k": k, "a": a, "b": b}
 
 
@@ -150,8 +157,6 @@ class Gen:
         if r < 0.5:
             op = self.rng.choice(["add", "sub", "mul", "div"])
             a, b = self.expr(d, defined), self.expr(d, defined)
-            if op == "div" and b["k"] == "num" and b["n"] == 0:
-                b = num(2)  # a literal division by zero is not a program
             return bin_(op, a, b)
         if r < 0.58:
             return self.neg(self.expr(d, defined))
@@ -434,7 +439,7 @@ def advan_case(rng: random.Random, cid, advan, trans, scale, alag, bio, ratemode
     if r < 0.4:
         err = [asg("IPRED", var("F")), asg("Y", bin_("add", var("IPRED"), var("EPS(1)")))]
     elif r < 0.7:
-        err = [asg("IPRED", var("F")), asg("W", bin_("mul", var("IPRED"), num(1, 10))),
+        err = [asg("IPRED", var("F")), asg("W", bin_("mul", var("IPRED"), num(1, 8))),
                asg("Y", bin_("add", var("IPRED"), bin_("mul", var("W"), var("EPS(1)"))))]
     else:
         err = [asg("IPRED", num(0)), lif(rel("GT", var("F"), num(0)), "IPRED", fn("ABS", var("F"))),
